@@ -196,6 +196,42 @@ inline void run(Ctx& C) {
     if (u < 0x20 || u >= 0x80) C.nontrivial();
     C.end();
   }
+  // ---- 1c. the escape inside a single-quoted string, and directly followed by hexadecimal-digit characters (the decoder
+  //          takes exactly four digits)
+  for (uint32_t u = 0; u < 0x10000; u++) {
+    if (isSur(uint16_t(u))) continue;
+    if (!C.take()) continue;
+    char kb[64];
+    snprintf(kb, sizeof kb, "uni-quote-hex:%04x", u);
+    C.begin(kb);
+    std::string esc = spell(uint16_t(u), int(u % 3)), dec = utf8(u);
+    struct V { std::string text, want; };
+    std::vector<V> vs = {{"'" + esc + "'", dec}, {"'a\\'" + esc + "\"b'", "a'" + dec + "\"b"}, {"\"" + esc + "2fA\"", dec + "2fA"},
+                         {"\"" + esc + esc + "0\"", dec + dec + "0"}, {"{'" + esc + "9':'" + esc + "'}", ""}};
+    for (size_t i = 0; i < vs.size(); i++) {
+      JsonDocument doc;
+      DeserializationError err = deserializeJson(doc, vs[i].text);
+      if (err != DeserializationError::Ok) {
+        C.fail("bmp-decode", "variant " + std::to_string(i) + ": code=" + err.c_str());
+        continue;
+      }
+      if (i + 1 < vs.size()) {
+        JsonString js = doc.as<JsonString>();
+        std::string got = js.c_str() ? std::string(js.c_str(), js.size()) : std::string("<null>");
+        if (got != vs[i].want) C.fail("bmp-decode", "variant " + std::to_string(i) + ": got " + verif::hex(got) + " want " + verif::hex(vs[i].want));
+      } else {
+        JsonObject o = doc.as<JsonObject>();
+        bool ok = o.size() == 1;
+        for (JsonPair kv : o) {
+          JsonString vsr = kv.value().as<JsonString>();
+          ok = ok && std::string(kv.key().c_str(), kv.key().size()) == dec + "9" && vsr.c_str() && std::string(vsr.c_str(), vsr.size()) == dec;
+        }
+        if (!ok) C.fail("bmp-decode", "single-quoted key / value with the escape decoded wrongly");
+      }
+    }
+    if (u >= 0x80) C.nontrivial();
+    C.end();
+  }
   // ---- 2. unpaired surrogates in four contexts (document must stay usable)
   for (uint32_t u = 0xD800; u < 0xE000; u++) {
     for (int ctx = 0; ctx < 4; ctx++) {
@@ -375,6 +411,7 @@ inline void run(Ctx& C) {
       }
     }
   }
+  C.bound("every non-surrogate code unit in single-quoted strings and directly followed by hexadecimal-digit characters");
   C.bound("12 bytes (the rewritten ones, a plain one, 0x7f, 0x80, '/') alone and doubled behind 0..70, 125..128, 253..256, 509..512, 1021..1023 padding bytes, as value and key");
   C.bound(T ? "all 65536 code units x 3 casings x 5 positions; every non-surrogate code unit in a document that already pools its prefix; all 2^20 surrogate pairs; all 256+65536 byte strings as value and key"
             : "all 65536 code units x 3 casings x 5 positions; every non-surrogate code unit in a document that already pools its prefix; 124x124 surrogate pair grid; all 256+65536 byte strings as value and key");
